@@ -1,6 +1,4 @@
-import KinModel.Lemmas.C03
-import KinModel.Gen.Descriptors
-open KinModel.Marshal KinModel.Gen
-#eval (descriptors.filter (fun d => !d.agree)).map (·.name)
-#eval (descriptors.filter (fun d => !d.agree)).map (fun d => (d.marsh.filter (fun m => !marshFieldOK compat d m)).map (·.key))
-#eval (descriptors.filter (fun d => !d.agree)).map (fun d => (alwaysKeys d, specRequired d.name))
+import KinModel.Lemmas.C03Deep
+open KinModel.Marshal
+#print axioms field_fix
+#print axioms stepMaplike_idem
